@@ -19,6 +19,7 @@ pub mod procpool;
 pub mod yaml;
 pub mod yaml_gen;
 pub mod checkvar;
+pub mod editdoc;
 
 pub struct Ctx {
   pub seed: u64,
@@ -67,6 +68,8 @@ pub fn run(unit: &str, ctx: &Ctx, rng: &mut Rng, o: &mut Out) -> bool {
     "near_miss" => matching::near_miss_unit(ctx, rng, o),
     "rules_shared" => rules::rules_unit(ctx, rng, o, true),
     "rules_disjoint" => rules::rules_unit(ctx, rng, o, false),
+    "editdoc" => editdoc::editdoc(ctx, rng, o),
+    "edittree" => editdoc::edittree(ctx, rng, o),
     "yaml_load" => yaml_gen::yaml_load(ctx, rng, o),
     "yaml_scan" => yaml::yaml_scan(ctx, rng, o),
     "yaml_child" => yaml::child_main(),
@@ -112,6 +115,9 @@ pub fn exec_op(op: &str, a: &serde_json::Value) -> serde_json::Value {
     return v;
   }
   if let Some(v) = yaml::exec(op, a) {
+    return v;
+  }
+  if let Some(v) = editdoc::exec(op, a) {
     return v;
   }
   serde_json::json!({"harness_error": format!("op {op} is not replayable stand-alone")})
